@@ -55,6 +55,7 @@ pub fn rerun(a: &Args, out: &mut Out) {
                         stack: stat(v["stack"].as_str().unwrap()),
                         fuel: v["fuel"].as_i64().unwrap(),
                         fail_at: v["fail_at"].as_i64().unwrap(),
+                        entry: stat(v["entry"].as_str().unwrap_or("dispatch_deadline")),
                     };
                     fam_h::run_case(&c, out);
                 }
